@@ -66,13 +66,17 @@ pub fn unhex(s: &str) -> Option<Vec<u8>> {
 pub struct Gen {
     pub rng: Rng,
     pub thorough: bool,
+    /// multiplier for the randomized quick budgets (VERIF_SCALE; the runner raises it when the source files a
+    /// property's model mirrors differ from the pinned tree: changed code deserves a closer look)
+    pub scale: usize,
     pub cases: Vec<String>,
     pub corpus_cases: usize,
     pub hist: BTreeMap<String, u64>,
 }
 impl Gen {
     pub fn new(seed: u64, thorough: bool) -> Self {
-        Gen { rng: Rng(seed ^ 0x6a6f6d696e69), thorough, cases: Vec::new(), corpus_cases: 0, hist: BTreeMap::new() }
+        let scale = std::env::var("VERIF_SCALE").ok().and_then(|s| s.parse().ok()).filter(|s| *s >= 1).unwrap_or(1);
+        Gen { rng: Rng(seed ^ 0x6a6f6d696e69), thorough, scale, cases: Vec::new(), corpus_cases: 0, hist: BTreeMap::new() }
     }
     pub fn emit(&mut self, line: String) {
         self.cases.push(line);
@@ -82,7 +86,7 @@ impl Gen {
     }
     /// quick / thorough budget selector
     pub fn budget(&self, quick: usize, thorough: usize) -> usize {
-        if self.thorough { thorough } else { quick }
+        if self.thorough { thorough } else { (quick.saturating_mul(self.scale)).min(thorough.max(quick)) }
     }
 }
 
